@@ -8,6 +8,13 @@ use serde_json::json;
 use std::collections::{BTreeMap, HashSet};
 
 fn threaded_plans(tier: Tier, base: &Outcome) -> Vec<Plan> {
+    let mut plans = plans_for(tier, base);
+    for p in plans.iter_mut() { p.workload = base.plan.workload; }
+    plans.sort(); plans.dedup();
+    plans
+}
+
+fn plans_for(tier: Tier, base: &Outcome) -> Vec<Plan> {
     let mut singles: Vec<Plan> = Vec::new();
     for i in 0..base.reads { for d in [ReadDev::One, ReadDev::Half, ReadDev::Block, ReadDev::Eof, ReadDev::Err] { let mut p = Plan::default(); p.reads.insert(i, d); singles.push(p); } }
     for i in 0..base.writes { for d in [WriteDev::One, WriteDev::AllButOne, WriteDev::Block, WriteDev::Interrupted, WriteDev::Zero, WriteDev::Err] { let mut p = Plan::default(); p.writes.insert(i, d); singles.push(p); } }
@@ -42,12 +49,44 @@ fn threaded_plans(tier: Tier, base: &Outcome) -> Vec<Plan> {
     for i in 0..base.writes { for c in [Control::Close, Control::CloseThenSubmit, Control::Stop, Control::StopDisconnect, Control::StopThenStart] {
         let mut p = Plan::default(); p.writes.insert(i, WriteDev::Err); p.on_drop.insert(0, c); plans.push(p);
     } }
+    if tier == Tier::Thorough {
+        // two deviations of any kind, the second one also at call indices the baseline never reaches (they land on the
+        // connection that follows a fatal first deviation: faults during session resumption)
+        let mut late: Vec<Plan> = singles.clone();
+        for i in base.reads..base.reads + 6 { for d in [ReadDev::One, ReadDev::Block, ReadDev::Eof, ReadDev::Err] { let mut p = Plan::default(); p.reads.insert(i, d); late.push(p); } }
+        for i in base.writes..base.writes + 4 { for d in [WriteDev::One, WriteDev::Block, WriteDev::Zero, WriteDev::Err] { let mut p = Plan::default(); p.writes.insert(i, d); late.push(p); } }
+        for i in base.flushes..base.flushes + 3 { let mut p = Plan::default(); p.flush_errors.push(i); late.push(p); }
+        { let mut p = Plan::default(); p.refuse.push(1); late.push(p); }
+        for a in singles.iter() {
+            for b in late.iter() {
+                let mut p = a.clone();
+                for (k, v) in &b.reads { p.reads.entry(*k).or_insert(*v); }
+                for (k, v) in &b.writes { p.writes.entry(*k).or_insert(*v); }
+                for f in &b.flush_errors { if !p.flush_errors.contains(f) { p.flush_errors.push(*f); } }
+                for f in &b.refuse { if !p.refuse.contains(f) { p.refuse.push(*f); } }
+                p.flush_errors.sort(); p.refuse.sort();
+                if p != *a { plans.push(p); }
+            }
+        }
+        // a user call before iteration k together with one transport deviation anywhere
+        for k in 0..=base.iterations {
+            for c in [Control::Close, Control::CloseThenSubmit, Control::Stop, Control::StopDisconnect, Control::StopThenStart] {
+                for a in singles.iter() { let mut p = a.clone(); p.controls.insert(k, c); plans.push(p); }
+            }
+        }
+        // three benign deviations
+        for (ai, a) in benign.iter().enumerate() { for (bi, b) in benign.iter().enumerate().skip(ai + 1) { for c in benign.iter().skip(bi + 1) {
+            let mut p = (*a).clone();
+            for other in [b, c] { for (k, v) in &other.reads { p.reads.entry(*k).or_insert(*v); } for (k, v) in &other.writes { p.writes.entry(*k).or_insert(*v); } }
+            if p.reads.len() + p.writes.len() == 3 && (ai + bi) % 4 == 0 { plans.push(p); }
+        } } }
+    }
     plans.sort(); plans.dedup();
     plans
 }
 
-fn run_driver(report: &mut Report, known: &KnownFindings, tier: Tier, driver: &str, execute: fn(&Plan) -> Outcome, pool: &rayon::ThreadPool) -> bool {
-    let base = execute(&Plan::default());
+fn run_driver(report: &mut Report, known: &KnownFindings, tier: Tier, driver: &str, workload: u8, execute: fn(&Plan) -> Outcome, pool: &rayon::ThreadPool) -> bool {
+    let base = execute(&Plan { workload, ..Default::default() });
     if !base.machinery.is_empty() { for m in &base.machinery { report.machinery_errors.push(format!("{} baseline: {}", driver, m)); } return false; }
     if !base.problems.is_empty() {
         // the baseline itself misbehaves: report it and still enumerate
@@ -68,7 +107,8 @@ fn run_driver(report: &mut Report, known: &KnownFindings, tier: Tier, driver: &s
         }
     }
     for (signature, (detail, o)) in &first {
-        let (property, bare) = match signature.strip_prefix("C16:") { Some(rest) => ("C16", rest.to_string()), None => ("C13", signature.clone()) };
+        // a signature may name the property it belongs to ("C05:...", "C16:..."); everything else is C13's
+        let (property, bare): (&str, String) = if signature.len() > 4 && signature.starts_with('C') && signature.as_bytes()[3] == b':' && signature[1..3].chars().all(|c| c.is_ascii_digit()) { (&signature[..3], signature[4..].to_string()) } else { ("C13", signature.clone()) };
         let v = Violation::new(property, format!("{}: {}", driver, bare), detail.clone());
         if let Some(k) = known.matches(&v) { report.known_hit.insert((v.property.clone(), format!("{} [{}]", k.what_fails, k.signature))); continue; }
         // the same plan must fail the same way again before it is believed
@@ -81,13 +121,14 @@ fn run_driver(report: &mut Report, known: &KnownFindings, tier: Tier, driver: &s
             eprintln!("NOTE: {} plan {:?} showed '{}' once and not again in three re-executions: not reported", driver, o.plan, signature);
             continue;
         }
-        let body = json!({"kind": "driver-plan", "driver": driver, "plan": format!("{:?}", o.plan), "events": o.events, "results": o.results, "io_log": o.io_log, "wire_packet_types_per_connection": o.wire, "signature": signature, "detail": detail});
+        let body = json!({"kind": "driver-plan", "driver": driver, "spec": plan_spec(&o.plan), "plan": format!("{:?}", o.plan), "events": o.events, "results": o.results, "io_log": o.io_log, "wire_packet_types_per_connection": o.wire, "signature": signature, "detail": detail});
         let path = write_replay(property, &format!("{}-{}", driver, bare), &body);
         report.violations.push((v, path));
     }
     report.add_count("evaluations", (plans.len() + 1) as u64);
     report.add_count(&format!("{}_executions", driver), (plans.len() + 1) as u64);
     report.add_count("distinct_nontrivial", distinct.len() as u64);
+    let driver = &format!("{}{}", driver, if workload == 1 { "_qos2" } else { "" });
     report.set(&format!("{}_baseline", driver), json!({"reads": base.reads, "writes": base.writes, "flushes": base.flushes, "rounds": base.iterations, "events": base.events, "results": base.results}));
     report.set(&format!("{}_samples", driver), json!(outcomes.iter().filter(|o| !o.plan.reads.is_empty() || !o.plan.controls.is_empty()).take(3).map(|o| json!({"plan": format!("{:?}", o.plan), "events": o.events, "results": o.results})).collect::<Vec<_>>()));
     true
@@ -97,10 +138,13 @@ pub fn run_c13(tier: Tier) -> i32 {
     let mut report = Report::new("C13", tier, "fault_enumeration");
     let known = KnownFindings::load();
     let pool = rayon::ThreadPoolBuilder::new().num_threads(threads()).build().unwrap();
-    let ok_threaded = run_driver(&mut report, &known, tier, "threaded", threaded_h::execute, &pool);
-    let ok_tokio = run_driver(&mut report, &known, tier, "tokio", tokio_h::execute, &pool);
-    if !(ok_threaded && ok_tokio) { return report.finish(); }
-    report.set("rule", json!("both real drivers (new_threaded_client on a gated blocking transport, new_tokio_client on a scripted AsyncRead/AsyncWrite under a paused current-thread runtime): baseline workload (connect, subscribe, QoS1 publish, 5000-byte QoS1 publish, QoS0 publish, 5000-byte inbound publish, stop, close); enumerated: every single deviation {read: 1 byte, half, would-block/pending, EOF, error; write: 1 byte, all-but-one, would-block/pending, interrupted, zero, error; flush error; refused connection} at every read/write/flush call index of the baseline, pairs of a benign deviation with any deviation (every third pair in the quick tier), and every placement of close / close+submit / submit+close / stop / stop+DISCONNECT / stop+start before every loop iteration (threaded) or harness round (tokio); distinct = distinct (event stream, operation results, connection count, problems) digests"));
+    let mut all_ok = true;
+    for workload in [0u8, 1] {
+        all_ok &= run_driver(&mut report, &known, tier, "threaded", workload, threaded_h::execute, &pool);
+        all_ok &= run_driver(&mut report, &known, tier, "tokio", workload, tokio_h::execute, &pool);
+    }
+    if !all_ok { return report.finish(); }
+    report.set("rule", json!("both real drivers (new_threaded_client on a gated blocking transport, new_tokio_client on a scripted AsyncRead/AsyncWrite under a paused current-thread runtime): two baseline workloads (A: connect, subscribe, QoS1 publish, 5000-byte QoS1 publish, QoS0 publish, 5000-byte inbound QoS1 publish, two statically invalid submissions, stop, close; B: the same with a 5000-byte QoS2 publish, an unsubscribe and a 5000-byte inbound QoS2 publish, judged for exactly-once in both directions); enumerated: every single deviation {read: 1 byte, half, would-block/pending, EOF, error; write: 1 byte, all-but-one, would-block/pending, interrupted, zero, error; flush error; refused connection} at every read/write/flush call index of the baseline, pairs of a benign deviation with any deviation (every third pair in the quick tier; thorough: any two deviations, the second also at call indices beyond the baseline's, i.e. on the connection after a fatal one, one user call together with one deviation, and triples of benign deviations), and every placement of close / close+submit / submit+close / stop / stop+DISCONNECT / stop+start before every loop iteration (threaded) or harness round (tokio); distinct = distinct (event stream, operation results, connection count, problems) digests"));
     let samples = json!([report.coverage.get("threaded_samples").cloned().unwrap_or(json!([])), report.coverage.get("tokio_samples").cloned().unwrap_or(json!([]))]);
     report.set("samples", samples);
     report.set("exhaustive", json!(tier == Tier::Thorough));
@@ -112,8 +156,34 @@ pub fn run_c13(tier: Tier) -> i32 {
     report.finish()
 }
 
+/// The plan in the syntax `mc c13-debug` and the replay files use.
+pub fn plan_spec(plan: &Plan) -> String {
+    let mut items: Vec<String> = Vec::new();
+    if plan.workload != 0 { items.push(format!("q{}", plan.workload)); }
+    for (k, v) in &plan.reads { items.push(format!("r{}={:?}", k, v)); }
+    for (k, v) in &plan.writes { items.push(format!("w{}={:?}", k, v)); }
+    for k in &plan.flush_errors { items.push(format!("f{}", k)); }
+    for k in &plan.refuse { items.push(format!("x{}", k)); }
+    for (k, v) in &plan.controls { items.push(format!("c{}={:?}", k, v)); }
+    for (k, v) in &plan.on_drop { items.push(format!("d{}={:?}", k, v)); }
+    items.join(",")
+}
+
+pub const REPLAY_KIND: &str = "driver-plan";
+
+/// `mc replay <file>` for a driver-plan artefact: executes the plan on the real driver again; exit 1 if the recorded problem shows again.
+pub fn replay_file(value: &serde_json::Value) -> i32 {
+    let driver = value["driver"].as_str().unwrap_or("threaded");
+    let driver = if driver.starts_with("tokio") { "tokio" } else { "threaded" };
+    let Some(spec) = value["spec"].as_str() else { eprintln!("replay file has no 'spec'"); return 2; };
+    let signature = value["signature"].as_str().unwrap_or("");
+    let code = debug_plan(driver, spec);
+    println!("recorded signature: {}", signature);
+    code
+}
+
 /// `mc c13-debug <threaded|tokio> <spec>`: executes one plan and prints what happened.  spec = comma list of
-/// rN=One|Half|Block|Eof|Err, wN=One|AllButOne|Block|Interrupted|Zero|Err, fN, xN, cN=Close|CloseThenSubmit|SubmitThenClose|Stop|StopDisconnect|StopThenStart
+/// qN (workload), rN=One|Half|Block|Eof|Err, wN=One|AllButOne|Block|Interrupted|Zero|Err, fN, xN, cN=Close|CloseThenSubmit|SubmitThenClose|Stop|StopDisconnect|StopThenStart
 pub fn debug_plan(driver: &str, spec: &str) -> i32 {
     let mut plan = Plan::default();
     for item in spec.split(',').filter(|s| !s.is_empty()) {
@@ -124,6 +194,7 @@ pub fn debug_plan(driver: &str, spec: &str) -> i32 {
             "w" => { plan.writes.insert(index, match value { "One" => WriteDev::One, "AllButOne" => WriteDev::AllButOne, "Block" => WriteDev::Block, "Interrupted" => WriteDev::Interrupted, "Zero" => WriteDev::Zero, _ => WriteDev::Err }); }
             "f" => plan.flush_errors.push(index),
             "x" => plan.refuse.push(index),
+            "q" => plan.workload = index as u8,
             "d" => { plan.on_drop.insert(index, match value { "Close" => Control::Close, "CloseThenSubmit" => Control::CloseThenSubmit, "SubmitThenClose" => Control::SubmitThenClose, "Stop" => Control::Stop, "StopDisconnect" => Control::StopDisconnect, _ => Control::StopThenStart }); }
             "c" => { plan.controls.insert(index, match value { "Close" => Control::Close, "CloseThenSubmit" => Control::CloseThenSubmit, "SubmitThenClose" => Control::SubmitThenClose, "Stop" => Control::Stop, "StopDisconnect" => Control::StopDisconnect, _ => Control::StopThenStart }); }
             _ => {}
